@@ -444,6 +444,7 @@ def judgeC12Conservation (o : Obs) (r : Nat) (init : List Int) : Verdict :=
 /-! ### C14 - interval / delay -/
 
 def judgeC14 (o : Obs) : Verdict :=
+  fail (internalCode (o.crash.headD 0)) s!"a program of tickers ended with an internal error {o.crash} (a stale wake-up of a closed ticker?)" ++
   (idx o).flatMap (fun p =>
     let e := p.1
     if e.tag == "tbegin" then
@@ -453,6 +454,10 @@ def judgeC14 (o : Obs) : Verdict :=
       let mine := (ofLabel o e.label).filter (fun q => q.2 > p.2 && q.2 < stop)
       let ticks := mine.filter (·.1.tag == "tick")
       let bodyEnds := mine.filter (·.1.tag == "tbodyend")
+      -- the iterator always hibernates between two iterations (and before the first): a tick in the
+      -- very same turn as the end of the previous body means nobody else could run
+      let noYield := (ticks.zip ((e, p.2) :: bodyEnds)).filter (fun tb => tb.1.1.time == tb.2.1.time && tb.1.1.turn == tb.2.1.turn)
+      fail (!noYield.isEmpty) s!"ticker of {e.label} (period {period}) resumed its body at {noYield.map (·.1.1.time)} without letting other activities run" ++
       if isInt then
         (ticks.zipIdx.flatMap (fun t => fail (t.1.1.time != e.time + period * ((t.2 + 1 : Nat) : Rat))
           s!"interval({period}) started at {e.time}: tick {t.2 + 1} at {t.1.1.time}")) ++
